@@ -149,7 +149,7 @@ def run(tier: str) -> int:
     if tier == "quick":
         body(chk, mc_nodes=3, n_random=1500, n_variants=400, deep=3)
     else:
-        body(chk, mc_nodes=4, n_random=6000, n_variants=1500, deep=4)
+        body(chk, mc_nodes=3, n_random=12000, n_variants=3000, deep=4)
     chk.cov["exhaustive"] = True
     chk.cov["rule"] = ("TLC enumerates every page with <= N nodes over the 'slots' alphabet and the fixed 4-component "
                        "library, x2 context modes, each replayed on the real library; seeded random libraries+pages "
